@@ -10,7 +10,7 @@ package otp
 //@ spec otp_entry(s, m) := str_split(s, ",")[m]
 //@
 //@ func (*OTP).LoginPost
-//@   property C01 C02 C03 C04 C12 C18
+//@   property C01 C02 C03 C04 C12 C16 C18
 //@   invariant loop#1 index_inv: rangeindex >= -1
 //@
 //@   -- C01/C12: the session is written only after a stored one-time password of the
@@ -33,3 +33,10 @@ package otp
 //@   ensures[C04] correct_not_failure: each Fire(_, EventAuthFail, _, _, _) => !emits Store.Save(_) && !emits Sess.Put(_, _)
 //@   ensures[C18] no_panic: !panics
 //@   ensures[C18] save_error_outcome: each Store.Save(_) -> ?e => e != nil ==> (result == e && !emits Sess.Put(_, _) && !emits Redirect(_))
+//@   -- C16: same as the password flow - a handled first event adds nothing observable; unknown
+//@   -- account and wrong one-time password get the same answer
+//@   ensures[C16] handled_adds_nothing: (emits Fire(_, _, _, _, _) -> (?hd, ?e) :: hd && e == nil && !(before Fire(_, _, _, _, _))) ==>
+//@       (result == nil && !emits Respond(_, _, _) && !emits Redirect(_) && !emits Sess.Put(_, _) && !emits Sess.Del(_) && !emits Cook.Put(_, _) && !emits Cook.Del(_))
+//@   ensures[C16] unknown_vs_wrong: each Respond(?code, ?page, ?data) =>
+//@       (code == 200 && page == PageLogin && maplen(data) == 1 && mapget(data, DataErr) == loc(o.Authboss, TxtInvalidCredentials) &&
+//@        !emits Sess.Put(_, _) && !emits Sess.Del(_) && !emits Cook.Put(_, _) && !emits Cook.Del(_) && !emits Redirect(_))
